@@ -398,7 +398,11 @@ func TestWorker(t *testing.T) {
 		seed := tape.Derive(master, propID, i)
 		emit(&RunResult{Kind: "begin", Run: i, Seed: seed})
 		w0 := time.Now()
-		r := execOnce(t, p, tape.New(seed), tier, false, known)
+		dump := os.Getenv("VERIF_DUMP_LOG") // development aid: write the whole event log of each run to <path>.<run>
+		r := execOnce(t, p, tape.New(seed), tier, dump != "", known)
+		if dump != "" {
+			os.WriteFile(fmt.Sprintf("%s.%d", dump, i), []byte(strings.Join(r.Trace(), "\n")+"\n"), 0o644)
+		}
 		rr := &RunResult{Kind: "run", Run: i, Seed: seed, Digest: r.Digest(), Events: r.Events(), TapeLen: len(r.T.Rec),
 			SimSeconds: r.SimSeconds, WallMs: time.Since(w0).Milliseconds(), Faults: r.Faults, Probes: r.Probes,
 			Skipped: r.Skipped, NonTrivial: r.NonTrivial, Finger: r.Finger}
